@@ -64,8 +64,8 @@ extern std::vector<T> Sub_List(const std::vector<T>& v, int i1, unsigned int i2)
 {
 	if(i1 < 0)
 		i1 = 0;
-	if(i2 > v.size())
-		i2 = v.size();
+	if(i2 >= v.size())
+		i2 = v.size() - 1;	 // i2 is an inclusive index: the last valid one is size-1
 	std::vector<T> sub(&v[i1], &v[i2] + 1);
 	return sub;
 }
